@@ -120,7 +120,7 @@ func (u *universe) txFacts() map[string]any {
 			dlg = s.dlg.name
 		}
 		cost := units(mulGas(s.tx.Gas(), u.e.effPrice(s.tx)))
-		out[t.name] = map[string]any{"id": s.id, "org": s.org.name, "dlg": dlg, "cost": cost, "cap": digits(feeCap(s.tx, u.e.baseGP)), "prio": digits(u.e.expectedPrio(s.tx, true)), "prio0": digits(u.e.expectedPrio(s.tx, false)),
+		out[t.name] = map[string]any{"id": s.id, "org": s.org.name, "dlg": dlg, "cost": cost, "costs": []any{}, "cap": digits(feeCap(s.tx, u.e.baseGP)), "prio": digits(u.e.expectedPrio(s.tx, true)), "prio0": digits(u.e.expectedPrio(s.tx, false)),
 			"ref": s.tx.BlockRef().Number(), "exp": s.tx.Expiration(), "dep": s.dep, "typed": false}
 	}
 	return out
